@@ -399,6 +399,9 @@ func (r *atRun) checkC09(o *episodeObs) {
 			if anyRolled {
 				r.violate("C09", "dirty-not-rollbacked", "rollbacked-over-foreign-write"+feat, "episode %d branch %d: row %s[%s] is %s, which differs from both the before image %s and the after image %s (foreign writer: %v), but the branch answered Rollbacked", o.idx, b.ID, dirtyRow.Table, dirtyRow.Key, simdb.FormatRow(c), simdb.FormatRow(dirtyRow.Before), simdb.FormatRow(dirtyRow.After), fk)
 			}
+			if len(b.P2Answers) < b.P2Requests {
+				r.violate("C09", "dirty-reports-failure", "no-answer-on-dirty"+feat, "episode %d branch %d: row %s[%s] differs from both images; the coordinator sent %d BranchRollback request(s) and got %d answer(s): the failure is not reported", o.idx, b.ID, dirtyRow.Table, dirtyRow.Key, b.P2Requests, len(b.P2Answers))
+			}
 			if len(wrote) > 0 {
 				r.violate("C09", "dirty-untouched", "wrote-despite-foreign-write"+feat, "episode %d branch %d: row %s[%s] was changed by a foreign writer (%v) to %s but the rollback transaction committed %d application row write(s), first %s[%s] -> %s", o.idx, b.ID, dirtyRow.Table, dirtyRow.Key, fk, simdb.FormatRow(c), len(wrote), wrote[0].Table, wrote[0].Key, simdb.FormatRow(wrote[0].After))
 			}
